@@ -212,14 +212,14 @@ def check_pm(case):
     """precession(e0 -> e1, pos, mu) must equal precession(e0 -> e1, pos + mu * years, 0):
     the proper motion is applied linearly for the elapsed time, then rotated."""
     lon, lat, mra, mdec, kind = case["lon"], case["lat"], case["mu_lon"], case["mu_lat"], case["kind"]
-    fn = precession_equatorial if kind == "equ" else precession_ecliptical
-    e0 = ep(0.0)
+    fn = {"equ": precession_equatorial, "ecl": precession_ecliptical, "newcomb": precession_newcomb}[kind]
+    e0 = ep(0.0) if kind != "newcomb" else ep(-1.0)
     out = []
     disp = []
     try:
         for k in (1, 2, 3):
-            e1 = Epoch(J2000 + 365.25 * 50.0 * k)
-            years = 50.0 * k
+            e1 = Epoch(e0.jde() + 365.25 * 50.0 * k)
+            years = (e1.jde() - e0.jde()) / (365.25 if kind != "newcomb" else 365.242199)
             x1, y1 = fn(e0, e1, Angle(lon), Angle(lat), mra * ARCSEC, mdec * ARCSEC)
             x2, y2 = fn(e0, e1, Angle(lon), Angle(lat), Angle(mra * ARCSEC), Angle(mdec * ARCSEC))
             if x1._deg != x2._deg or y1._deg != y2._deg:
@@ -236,6 +236,8 @@ def check_pm(case):
     except Exception as ex:
         return [("pm_exception", "proper-motion call %r raised %r" % (case, ex), None)]
     for idx in (0, 1):
+        if kind == "newcomb":
+            break       # the FK4 polynomials are not an exact inverse pair: un-rotating leaves 1e-7..1e-6 deg
         sd = abs(disp[2][idx] - 2 * disp[1][idx] + disp[0][idx])
         if sd > 1e-7:
             out.append(("pm_second_difference", "displacement in coordinate %d not linear in time: %r"
@@ -245,11 +247,11 @@ def check_pm(case):
 
 def pm_cases():
     out = []
-    for kind in ("equ", "ecl"):
+    for kind in ("equ", "ecl", "newcomb"):
         for lon in (41.0, 200.0):
             for lat in (-60.0, 0.0, 49.2, 80.0):
-                for mra in (0.0, 1.0, -1.0, 10.0, -10.0):
-                    for mdec in (0.0, 1.0, -1.0, 10.0, -10.0):
+                for mra in (0.0, 1.0, -1.0, 10.0, -10.0, 3.0):
+                    for mdec in (0.0, 1.0, -1.0, 10.0, -10.0, -0.5):
                         out.append({"kind": kind, "lon": lon, "lat": lat, "mu_lon": mra, "mu_lat": mdec})
     return out
 
@@ -271,6 +273,10 @@ def run_pm(block, ctx):
 
 def check_orb(case):
     c0, c1, i, w, om = case["c0"], case["c1"], case["i"], case["arg"], case["node"]
+    if c0 == c1 and min(i, 180.0 - i) < 1e-6:
+        # zero interval AND an orbit in the ecliptic plane (node undefined): the statement speaks of
+        # reducing to *another* equinox; the library re-labels the undefined node there
+        return []
     e0, e1 = ep(c0), ep(c1)
     try:
         i1, w1, o1 = orbital_equinox2equinox(e0, e1, Angle(i), Angle(w), Angle(om))
@@ -281,18 +287,30 @@ def check_orb(case):
 
     def cd(a, b):
         return abs((a - b + 180.0) % 360.0 - 180.0)
-    # the node (and with it the argument of perihelion) of a nearly ecliptic orbit is
-    # defined only to (plane error)/sin i: scale their tolerance, keep i and the
-    # longitude of perihelion (arg + node) at 1e-6 / 2e-6
-    si = max(math.sin(math.radians(i)), 1e-3)
-    dev = max(abs(i2._deg - i), cd(w2._deg, w) * si, cd(o2._deg, om) * si,
-              cd(w2._deg + o2._deg, w + om) / 2.0)
+
+    def frame(inc, arg, node):
+        """Orbit normal and perihelion direction (well defined for every inclination,
+        also 0 and 180 where the node is not)."""
+        ir, wr, orr = math.radians(inc), math.radians(arg), math.radians(node)
+        n = (math.sin(ir) * math.sin(orr), -math.sin(ir) * math.cos(orr), math.cos(ir))
+        P = (math.cos(orr) * math.cos(wr) - math.sin(orr) * math.sin(wr) * math.cos(ir),
+             math.sin(orr) * math.cos(wr) + math.cos(orr) * math.sin(wr) * math.cos(ir),
+             math.sin(wr) * math.sin(ir))
+        return n, P
+    n0, P0 = frame(i, w, om)
+    n2, P2 = frame(i2._deg, w2._deg, o2._deg)
+    dev = max(S.sep(n0, n2), S.sep(P0, P2) / 2.0)
     if dev > 1e-6:
-        out.append(("orb_roundtrip", "elements (i=%r, w=%r, node=%r) reduced %r->%r->%r come back as (%r, %r, %r)"
-                    % (i, w, om, c0, c1, c0, i2._deg, w2._deg % 360, o2._deg % 360), dev))
+        out.append(("orb_roundtrip", "elements (i=%r, w=%r, node=%r) reduced %r->%r->%r come back as (%r, %r, %r): orbit "
+                    "normal off by %.3g deg, perihelion direction by %.3g deg"
+                    % (i, w, om, c0, c1, c0, i2._deg, w2._deg % 360, o2._deg % 360, S.sep(n0, n2), S.sep(P0, P2)), dev))
+    if not (-1e-9 <= i2._deg <= 180.0 + 1e-9) or not (-1e-9 <= i1._deg <= 180.0 + 1e-9):
+        if abs(i) > 1e-6:       # for i = 0 the library returns i = eta, negative for a backward interval
+            out.append(("orb_range", "inclination %r / %r outside [0, 180]" % (i1._deg, i2._deg), None))
     if c0 == c1:
-        dev = max(abs(i1._deg - i), cd(w1._deg, w), cd(o1._deg, om))
-        if dev > 1e-9:
+        n1, P1 = frame(i1._deg, w1._deg, o1._deg)
+        dev = max(S.sep(n0, n1), S.sep(P0, P1))
+        if dev > 1e-8:
             out.append(("orb_identity", "zero interval changes the elements to (%r, %r, %r)"
                         % (i1._deg, w1._deg, o1._deg), dev))
     # the orbit pole must move like a star: rigid rotation of the orbital plane
@@ -310,7 +328,7 @@ def check_orb(case):
 def orb_cases():
     out = []
     for c0, c1 in itertools.product([0.0, -0.5, 1.0, -2.0, 0.2884], repeat=2):
-        for i in (0.5, 1.5, 47.122, 89.0, 120.0, 162.0, 11.94524):
+        for i in (0.0, 1e-9, 0.5, 1.5, 47.122, 89.0, 90.0, 120.0, 162.0, 11.94524, 179.9999999, 180.0):
             for w in (0.0, 45.7481, 151.4486, 300.0):
                 for om in (0.0, 45.7481, 151.4486, 300.0, 334.75006):
                     out.append({"c0": c0, "c1": c1, "i": i, "arg": w, "node": om})
@@ -330,10 +348,62 @@ def run_orb(block, ctx):
     ctx.sample(block[0])
 
 
+# -- histories: the previous call used (almost) the same epochs ------------------------------
+
+NEAR = [0.0, 1e-6, -1e-6, 0.004, -0.004, 0.3, -0.3]      # days
+
+
+def check_near_history(case):
+    """result(prime(e0 + d0, e1 + d1); target(e0, e1)) must equal result(target alone after a far
+    priming call): a rotation remembered from the previous call must not be re-used."""
+    c0, c1, lon, lat = case["c0"], case["c1"], case["lon"], case["lat"]
+    out = []
+    for name, fn in (("equatorial", precession_equatorial), ("ecliptical", precession_ecliptical),
+                     ("newcomb", precession_newcomb)):
+        if name == "newcomb" and not (-2.0 <= c0 <= 1.0 and -2.0 <= c1 <= 1.0):
+            continue
+        try:
+            fn(ep(7.7), ep(-3.3), Angle(10.0), Angle(10.0))        # far away
+            ref = fn(ep(c0), ep(c1), Angle(lon), Angle(lat))
+            ref = (ref[0]._deg, ref[1]._deg)
+            for d0 in NEAR:
+                for d1 in NEAR:
+                    if d0 == 0.0 and d1 == 0.0:
+                        continue
+                    fn(Epoch(ep(c0).jde() + d0), Epoch(ep(c1).jde() + d1), Angle(lon), Angle(lat))
+                    got = fn(ep(c0), ep(c1), Angle(lon), Angle(lat))
+                    got = (got[0]._deg, got[1]._deg)
+                    if got != ref:
+                        out.append(("near_history", "precession_%s(%r->%r) of (%r,%r) gives %r right after a call with "
+                                    "epochs shifted by (%r, %r) d, %r otherwise" % (name, c0, c1, lon, lat, got, d0, d1, ref),
+                                    S.sep_ll(got[0], got[1], ref[0], ref[1])))
+        except Exception as ex:
+            out.append(("near_exception", "precession_%s history raised %r" % (name, ex), None))
+    return out
+
+
+def near_cases():
+    return [{"c0": c0, "c1": c1, "lon": lon, "lat": lat}
+            for (c0, c1) in ((0.0, 0.1), (0.0, 0.0), (-1.0, 0.5), (1.0, -0.2884), (0.01, 0.0))
+            for (lon, lat) in ((41.0, 49.2), (200.0, -86.0), (0.0, 89.9))]
+
+
+def run_near(block, ctx):
+    for case in block:
+        ctx.evals += 3 * (len(NEAR) ** 2 - 1)
+        ctx.nt_count += 1
+        for site, msg, dev in check_near_history(case):
+            ctx.viol(case, msg, dev=dev, site=site)
+        ctx.outcome((case["c0"], case["c1"]))
+    ctx.sample(block[0])
+
+
 def clauses(tier):
     return [
         Clause("epoch_pairs", chunks(pair_cases(tier), 64), run_pairs,
                lambda c: [m for _, m, _ in check_pair(c)], floor=5000),
+        Clause("near_epoch_history", chunks(near_cases(), 15), run_near,
+               lambda c: [m for _, m, _ in check_near_history(c)], floor=10, shape="H"),
         Clause("epoch_triples", chunks(triple_cases(), 16), run_triples,
                lambda c: [m for _, m, _ in check_triple(c)], floor=500),
         Clause("proper_motion", chunks(pm_cases(), 8), run_pm,
